@@ -889,7 +889,7 @@ class XsdElement(XsdComponent, ParticleMixin,
             xsd_element._set_type(xsd_type)
 
         # Collect field values for identities that refer to this XSD element.
-        for identity in self.selected_by:
+        for identity in tuple(self.selected_by):  # can be augmented by another thread
             try:
                 counter = context.identities[identity]
             except KeyError:
